@@ -6,7 +6,7 @@ set -u
 S=/tmp/me/seeded_run; rm -rf $S; mkdir -p $S
 rsync -a --delete /verif/ $S/verif/
 git clone -q /repo $S/repo
-ids=${@:-$(ls /verif/seeded)}
+ids=${@:-$(cd /verif/seeded && ls -d C*)}
 fail=0
 for id in $ids; do
   pid=$(echo $id | cut -d- -f1)
